@@ -469,13 +469,21 @@ def drive_second(payload: dict) -> dict:
     try:
         tp.provider.publish()
         port = tp.provider.get_xaddrs()[0].split('//')[1].split('/')[0].split(':')[1]
-        tp.net.hostile_netlocs.add(f'{IP}:{port}')      # the same server, reached under its numeric address
+        if k['what'] == 'hostile_second':
+            tp.net.hostile_netlocs.add(f'{IP}:{port}')      # the same server, reached under its numeric address
+        else:
+            tp.net.wsdl_elsewhere = True                    # every hosted service announces its WSDL elsewhere
         tp.mk_consumer()
         n0 = len(tp.net.events)
+        from verif.c13_helpers import SocketGuard
+        guard = SocketGuard()
         try:
-            tp.start_consumer()
+            with guard:       # whatever is opened besides the consumer's soap clients is a connection without its context
+                tp.start_consumer()
         except Exception as ex:  # noqa: BLE001  an enforcing consumer may (must) give up
             a['gave_up'] = type(ex).__name__
+        for kind, what in guard.attempts:
+            a['events'].append({'ev': 'foreign:' + kind, 'second': True, 'ctx': 'none', 'out': what[:80], 'alt': False})
         for e in tp.net.events[n0:]:
             if e['party'] == 'consumer':
                 a['events'].append({'ev': e['ev'], 'second': e['netloc'].startswith(IP + ':'), 'ctx': e['ctx'],
@@ -505,8 +513,8 @@ def cases_of(run, cfg: str, n_cfg: int):
             out.append(p)
     kinds = {k: [p for p in out if p['c']['kind'] == k] for k in ('cfg', 'cert', 'client', 'sink', 'second')}
     sizes = {k: len(v) for k, v in kinds.items()}
-    if sizes != {'cfg': n_cfg, 'cert': 8, 'client': 4, 'sink': 24, 'second': 8}:
-        raise MachineryError(f'{cfg}: TLC enumerated {sizes}, expected cfg={n_cfg} cert=8 client=4 sink=24 second=8')
+    if sizes != {'cfg': n_cfg, 'cert': 8, 'client': 4, 'sink': 24, 'second': 16}:
+        raise MachineryError(f'{cfg}: TLC enumerated {sizes}, expected cfg={n_cfg} cert=8 client=4 sink=24 second=16')
     if res.distinct < len(out):
         raise MachineryError(f'{cfg}: {res.distinct} states for {len(out)} cases')
     return kinds
@@ -565,7 +573,7 @@ def judge(run, traces: list[list[dict]], payloads: list[dict]):
             descr = {'check': 'certloader', 'clause': clause, 'entry': c['entry'], 'ca': c['ca']}
             what = f'certloader case {c}: clause {clause} fails, actual {rec["a"]}'
         elif kind == 'second':
-            descr = {'check': 'second', 'clause': clause, 'mgr': c['mgr'], 'psrv': c['psrv']}
+            descr = {'check': 'second', 'clause': clause, 'mgr': c['mgr'], 'psrv': c['psrv'], 'what': c['what']}
             bad = [x for x in rec['a']['events'] if x['ctx'] != 'consumer.client']
             what = (f'enforcing consumer, second network location of the provider does not answer TLS {c}: clause '
                     f'{clause} fails: {bad[:3]} {rec["a"]["exc"]}')
